@@ -18,6 +18,28 @@ from .tys import mk_sym
 from .values import *  # noqa: F401,F403
 
 
+def schema_of(tenv, t, depth=0):
+    """JSON description of an input type, for the native replay builder"""
+    t = tenv.parse(t)
+    k = t[0]
+    if k in ("int", "bool", "str", "float", "td", "dt", "none", "opaque", "bytes"):
+        return {"k": k}
+    if k in ("func", "exc"):
+        return {"k": "opaque"}
+    if k == "opt":
+        return {"k": "opt", "of": schema_of(tenv, t[1], depth)}
+    if k == "enum":
+        ci = tenv.repo.cls(t[1])
+        return {"k": "enum", "cls": t[1], "module": ci.path[:-3].replace("/", ".")}
+    if k == "tuple":
+        return {"k": "tuple", "items": [schema_of(tenv, x, depth) for x in t[1]]}
+    if k == "obj":
+        ci = tenv.repo.cls(t[1])
+        return {"k": "obj", "cls": t[1], "module": ci.path[:-3].replace("/", ".") if ci else None,
+                "fields": {f: schema_of(tenv, ft, depth + 1) for f, ft in tenv.fields_of(t[1]).items()}}
+    return {"k": "unsupported:" + k}
+
+
 class FnReport:
     def __init__(self, contract: Contract, finfo):
         self.contract = contract
@@ -34,6 +56,7 @@ class FnReport:
         self.solver_time = 0.0
         self.wall = 0.0
         self.exits = {"return": 0, "raise": 0}
+        self.schema = None
 
     def add(self, ob: Obligation):
         self.queries += 1
@@ -139,6 +162,11 @@ class FunctionVerifier:
                 args[p] = VClass(fi.cls.name)
             else:
                 args[p] = mk_sym(st, ip.tenv, t, p)
+        if rep.schema is None:
+            try:
+                rep.schema = {p: schema_of(ip.tenv, t) for p, t in {**pts, **{k: v for k, v in c.binds.items() if k not in pts}}.items() if t is not None}
+            except Exception:  # noqa: BLE001
+                rep.schema = {}
         defining = None
         free = {k: v for k, v in c.binds.items() if k not in pts}
         if free:
